@@ -153,6 +153,7 @@ class FakeS3:
         self.bodies_seen = []
         self.body_log = []
         self.clock = None        # optional callable giving a global event stamp
+        self.on_event = None     # optional observer(entry)
 
     # -- plumbing -------------------------------------------------------
     def hook(self, what, info=None):
@@ -167,7 +168,9 @@ class FakeS3:
                  'outcome': outcome, 'seq': seq,
                  'thread': _real_threading.current_thread().name}
             self.log.append(e)
-            return e
+        if self.on_event is not None:
+            self.on_event(e)
+        return e
 
     def _call(self, op, kwargs, effect, summary=None, group='transfer'):
         seq = self.faults.next_seq(op)
